@@ -1,6 +1,8 @@
 package gateway
 
 import (
+	"strings"
+
 	hydrapb "github.com/hydraide/hydraide/sdk/go/hydraidego/v3/hydraidepbgo"
 )
 
@@ -147,6 +149,11 @@ func indexableHint(f *hydrapb.TreasureFilter) (BucketHint, bool) {
 	}
 	path := f.GetBytesFieldPath()
 	if path == "" {
+		return BucketHint{}, false
+	}
+	// Wildcard and pseudo-field paths are evaluated by the scan route only:
+	// a bucket indexes plain dotted fields and would read them as literal keys.
+	if strings.Contains(path, "[*]") || strings.Contains(path, "#len") {
 		return BucketHint{}, false
 	}
 	switch f.GetOperator() {
